@@ -147,7 +147,7 @@ def select_path():
     return out, [(n, has[n]) for n in ns_terms]
 
 
-KNOWN_ITEM_KW = {"with_alias", "subquery", "quote_char", "alias_quote_char", "with_namespace"}
+KNOWN_ITEM_KW = {"with_alias", "subquery", "quote_char", "alias_quote_char", "with_namespace", "groupby_alias", "orderby_alias"}
 
 
 def _item_call(fn, owner):
